@@ -203,20 +203,33 @@ pub fn elem_token(v: &Value) -> String {
     }
 }
 
-fn walk_flat(p: &mut DocProj, v: &Value, path: &[String]) -> Value {
+/// Returns the flattened reference value and the normalised value (every tracked object carries
+/// its identifier, which is the only thing `read` may add to a submitted document).
+fn walk_flat(p: &mut DocProj, v: &Value, path: &[String]) -> (Value, Value) {
     match v {
-        Value::String(s) => Value::from(format!("!{}", s)),
-        Value::Array(a) => Value::from(a.iter().map(|e| walk_flat(p, e, path)).collect::<Vec<_>>()),
-        Value::Object(o) => Value::from(walk_obj(p, o, path)),
-        _ => v.clone(),
+        Value::String(s) => (Value::from(format!("!{}", s)), v.clone()),
+        Value::Array(a) => {
+            let parts: Vec<(Value, Value)> = a.iter().map(|e| walk_flat(p, e, path)).collect();
+            (
+                Value::from(parts.iter().map(|x| x.0.clone()).collect::<Vec<_>>()),
+                Value::from(parts.iter().map(|x| x.1.clone()).collect::<Vec<_>>()),
+            )
+        }
+        Value::Object(o) => {
+            let (id, norm) = walk_obj(p, o, path);
+            (Value::from(id), norm)
+        }
+        _ => (v.clone(), v.clone()),
     }
 }
 
-fn walk_obj(p: &mut DocProj, o: &Map<String, Value>, path: &[String]) -> String {
+fn walk_obj(p: &mut DocProj, o: &Map<String, Value>, path: &[String]) -> (String, Value) {
     let id = gen_id(o, path);
     let mut fpath = path.to_vec();
     fpath.push(id.clone());
     let mut own = Map::new();
+    let mut norm = Map::new();
+    norm.insert("_id".to_string(), Value::from(id.clone()));
     for (k, v) in o {
         if k == "_id" {
             continue;
@@ -224,7 +237,8 @@ fn walk_obj(p: &mut DocProj, o: &Map<String, Value>, path: &[String]) -> String 
         if k.ends_with(FLAT) {
             let mut kp = fpath.clone();
             kp.push(k.clone());
-            let fv = walk_flat(p, v, &kp);
+            let (fv, nv) = walk_flat(p, v, &kp);
+            norm.insert(k.clone(), nv);
             if let Value::Array(a) = &fv {
                 let did = format!("^{}@{}", id, k);
                 p.arrays.insert(tok(&did), a.iter().map(elem_token).collect());
@@ -234,21 +248,18 @@ fn walk_obj(p: &mut DocProj, o: &Map<String, Value>, path: &[String]) -> String 
             }
         } else {
             own.insert(k.clone(), v.clone());
+            norm.insert(k.clone(), v.clone());
         }
     }
     p.objs.insert(tok(&id), canon_sha(&Value::from(own)));
-    id
+    (id, Value::from(norm))
 }
 
 /// Structural projection of a document (submitted or read back).
 pub fn project_doc(doc: &Map<String, Value>) -> DocProj {
     let mut p = DocProj { sha: String::new(), objs: BTreeMap::new(), arrays: BTreeMap::new() };
-    let mut d = doc.clone();
-    if !d.contains_key("_id") {
-        d.insert("_id".to_string(), Value::from(ROOT));
-    }
-    p.sha = canon_sha(&Value::from(d.clone()));
-    walk_obj(&mut p, &d, &[]);
+    let (_, norm) = walk_obj(&mut p, doc, &[]);
+    p.sha = canon_sha(&norm);
     p
 }
 
